@@ -62,6 +62,8 @@ package dynamicresources
 //@ end
 //@ func context.WithTimeout
 //@   props C11
+//@   trusted
+//@   note library: returns a non-nil derived context (the cancel function is a no-op for the engine)
 //@   pure
 //@   ensures result0 != nil
 //@ end
